@@ -180,10 +180,10 @@ def arith_oracle(op, X, Y, A, B, w):
     raise AnalysisError(op)
 
 
-def case_binary(prog, op, A, B, taint_mode="abort"):
+def case_binary(prog, op, A, B, taint_mode="abort", y_dtype="float"):
     w = World(prog, taint_mode)
-    case = Case("arith", op, f"FlodymArray.{op}", {"op": op, "x_dims": list(A), "y_dims": list(B)})
-    x, y = w.array("x", A), w.array("y", B)
+    case = Case("arith", op, f"FlodymArray.{op}", {"op": op, "x_dims": list(A), "y_dims": list(B), **({"y_dtype": y_dtype} if y_dtype != "float" else {})})
+    x, y = w.array("x", A), w.array("y", B, dtype=y_dtype)
     snaps = w.snap(x, y)
     kind, r = run_guarded(lambda: w.it.call_method(x, op, y))
     exp = arith_oracle(op, leaf_term("x", A, w), leaf_term("y", B, w), A, B, w)
@@ -260,6 +260,8 @@ def arith_cases(prog, alpha, lists=None, taint_mode="abort"):
         for B in L:
             for op in BIN:
                 yield lambda op=op, A=A, B=B: case_binary(prog, op, A, B, taint_mode)
+            if len(A) <= 2 and len(B) <= 2:      # an integer-valued (integer dtype) divisor is divided like any real number
+                yield lambda A=A, B=B: case_binary(prog, "__truediv__", A, B, taint_mode, y_dtype="int")
         for sc in SCALARS:
             for op in BIN:
                 yield lambda op=op, A=A, sc=sc: case_scalar(prog, op, A, sc, False, taint_mode)
@@ -345,10 +347,10 @@ def case_cast(prog, method, A, B, taint_mode="abort"):
     return finish(case, w)
 
 
-def case_shares(prog, A, S, taint_mode="abort"):
+def case_shares(prog, A, S, taint_mode="abort", dtype="float"):
     w = World(prog, taint_mode)
-    case = Case("shares", "get_shares_over", "FlodymArray.get_shares_over", {"op": "get_shares_over", "x_dims": list(A), "over": list(S)})
-    x = w.array("x", A)
+    case = Case("shares", "get_shares_over", "FlodymArray.get_shares_over", {"op": "get_shares_over", "x_dims": list(A), "over": list(S), **({"x_dtype": dtype} if dtype != "float" else {})})
+    x = w.array("x", A, dtype=dtype)
     X = leaf_term("x", A, w)
     snaps = w.snap(x)
     kind, r = run_guarded(lambda: w.it.call_method(x, "get_shares_over", tuple(S)))
@@ -399,6 +401,8 @@ def reduce_cases(prog, alpha, lists=None, taint_mode="abort"):
                     for style in (("letters", "names", "objects") if method == "sum_over" else ("letters",)):
                         yield lambda m=method, A=A, S=S, st=style: case_sum(prog, m, A, S, st, taint_mode)
                 yield lambda A=A, S=S: case_shares(prog, A, S, taint_mode)
+                if len(A) <= 2:
+                    yield lambda A=A, S=S: case_shares(prog, A, S, taint_mode, dtype="int")
         for method in ("sum_to", "sum_over"):
             for style in ("letters", "names") + (("objects",) if method == "sum_to" else ()):
                 yield lambda m=method, A=A, st=style: case_sum_unknown(prog, m, A, st, taint_mode)
@@ -411,6 +415,11 @@ def reduce_cases(prog, alpha, lists=None, taint_mode="abort"):
         for l in A + ("z",):
             for inplace in (False, True):
                 yield lambda A=A, l=l, ip=inplace: case_cumsum(prog, A, l, ip, taint_mode)
+        if len(A) <= 2:      # a source dimension with a single item is a dimension all the same
+            for method in ("cast_to", "cast_values_to"):
+                yield lambda m=method, A=A: case_cast(prog, m, A + ("s",), A, taint_mode)
+                yield lambda m=method, A=A: case_cast(prog, m, ("s",) + A, A + ("s",), taint_mode)
+            yield lambda A=A: case_sum(prog, "sum_to", A + ("s",), A, "letters", taint_mode)
 
 
 # ====================================================================== indexing (C06) and assignment (C05)
@@ -767,7 +776,43 @@ def selection_order_cases(prog, taint_mode="concrete"):
             yield lambda A2=A2, kv=kv, sp=sp: case_setitem(prog, A2, kv, "number", "letter", sp, taint_mode)
 
 
+def pattern_mix_cases(prog, taint_mode="concrete"):
+    """keys that combine, across dimensions, an adjacent ascending run, a spread (non-adjacent, unordered) selection, single
+    items and lists: code that rewrites index lists by their positions sees every combination"""
+    A = ("a", "b", "c")
+    pats = {"run": {"a": [1, 2], "b": [2, 3, 4], "c": [4, 5]}, "run1": {"a": [2], "b": [3], "c": [6]},
+            "spread": {"a": [4, 0], "b": [6, 0, 3], "c": [10, 0, 5, 2]}}
+    kinds = ("absent", "single", "subset", "list")
+    for kv in itertools.product(kinds, repeat=3):
+        sel_dims = [l for l, k in zip(A, kv) if k in ("subset", "list")]
+        if len([k for k in kv if k != "absent"]) < 2 or not sel_dims:
+            continue
+        for combo in itertools.product(("run", "spread", "run1"), repeat=len(sel_dims)):
+            if "run" not in combo and "run1" not in combo:
+                continue
+            sp = {l: pats[p][l] for l, p in zip(sel_dims, combo)}
+            if "list" not in kv:
+                yield lambda kv=kv, sp=sp: case_getitem(prog, A, kv, "letter", sp, taint_mode)
+                yield lambda kv=kv, sp=sp: case_setitem(prog, A, kv, "array-same", "letter", sp, taint_mode)
+            yield lambda kv=kv, sp=sp: case_setitem(prog, A, kv, "number", "letter", sp, taint_mode)
+
+
+def case_write_unknown_in_list(prog, A, taint_mode="abort"):
+    """x[{d: [known, unknown]}] = k must be refused (and leave x as it was)"""
+    w = World(prog, taint_mode)
+    case = Case("setitem-illformed", "__setitem__", "FlodymArray.__setitem__", {"op": "x[{d: [item, unknown item]}] = k", "x_dims": list(A)})
+    x = w.array("x", A)
+    snaps = w.snap(x)
+    key = {A[0]: [w.items(A[0])[0], "nope"]}
+    kind, r = run_guarded(lambda: w.it.call_method(x, "__setitem__", key, SymScalar(("sym", "k"))))
+    case.v("raises", kind == "raise", f"a list of items containing an unknown item was accepted as key ({describe(r, w)})")
+    common_checks(case, w, [x], snaps, kind, r, inplace_target=x)
+    return finish(case, w)
+
+
 def misc_index_cases(prog, taint_mode="abort"):
+    for A in [("a",), ("b", "a")]:
+        yield lambda A=A: case_write_unknown_in_list(prog, A, taint_mode)
     for A in [("a",), ("a", "b"), ("b", "a", "c")]:
         for how in ("slice", "slice-in-tuple", "unknown-item", "unknown-item-in-dict", "unknown-dim-in-dict", "ambiguous-item",
                     "non-subset-dimension", "subset-dimension-of-other-dim"):
@@ -862,7 +907,42 @@ def case_producer(prog, which, A, taint_mode="abort"):
     return finish(case, w)
 
 
+def case_apply_history(prog, A, first, taint_mode="abort"):
+    """an in-place abs/sign/apply on one array, then ordinary calls on another: state must not leak between calls"""
+    w = World(prog, taint_mode)
+    case = Case("producer", "apply", "FlodymArray.apply", {"op": f"y.{first}(inplace=True); x.sign(); x.abs()", "dims": list(A)})
+    it = w.it
+    x, y = w.array("x", A), w.array("y", A)
+    X, Y = leaf_term("x", A, w), leaf_term("y", A, w)
+    f = lambda a, **kw: NP.elementwise("userfunc", a)
+    if first == "apply":
+        kind, r = run_guarded(lambda: it.call_method(y, "apply", f, inplace=True))
+        yexp = t_fn("userfunc", Y)
+    else:
+        kind, r = run_guarded(lambda: it.call_method(y, first, inplace=True))
+        yexp = t_fn(first, Y)
+    if kind != "ok":
+        case.v("result", False, f"{first}(inplace=True) ended with {kind}")
+        return finish(case, w)
+    snaps = w.snap(x, y)
+    kind, s = run_guarded(lambda: it.call_method(x, "sign"))
+    judge_array(case, w, kind, s, tuple(A), full_axes(w, A), t_fn("sign", X), what="x.sign() after an in-place call on another array")
+    kind2, a = run_guarded(lambda: it.call_method(x, "abs"))
+    judge_array(case, w, kind2, a, tuple(A), full_axes(w, A), t_fn("abs", X), what="x.abs() after an in-place call on another array")
+    if kind == "ok" and isinstance(s, Obj):
+        judge_array(case, w, "ok", s, tuple(A), full_axes(w, A), t_fn("sign", X), what="the earlier result x.sign() after x.abs()")
+    judge_array(case, w, "ok", y, tuple(A), full_axes(w, A), yexp, what="the array changed in place earlier")
+    common_checks(case, w, [x, y], snaps, kind2, a, fresh=True)
+    if kind == "ok" and kind2 == "ok" and isinstance(s, Obj) and isinstance(a, Obj):
+        sb, ab = w.buffers(s), w.buffers(a)
+        case.v("fresh", not (sb & ab), "two results of successive calls share memory")
+    return finish(case, w)
+
+
 def producer_cases(prog, alpha, taint_mode="abort"):
+    for A in [(), ("a",), ("b", "a")]:
+        for first in ("abs", "sign", "apply"):
+            yield lambda A=A, first=first: case_apply_history(prog, A, first, taint_mode)
     for A in lists_over(alpha):
         if len(A) > 3:
             continue
